@@ -5,6 +5,7 @@ import (
 	"os/exec"
 	"strconv"
 	"go/ast"
+	"go/token"
 	"go/types"
 	"golang.org/x/tools/go/packages"
 	"encoding/json"
@@ -704,6 +705,52 @@ func selectLits(p *packages.Package, fd *ast.FuncDecl, sel string) []*ast.FuncLi
 							if l, ok := c.Args[0].(*ast.FuncLit); ok {
 								out = append(out, l)
 							}
+						}
+					}
+				}
+			}
+			return true
+		})
+	case strings.HasPrefix(sel, "case:"):
+		// case:<ident>[#k]: the body of the (k-th, in source order) case clause listing the identifier,
+		// verified as a block in which every variable of the enclosing function is arbitrary
+		want := strings.TrimPrefix(sel, "case:")
+		k := 0
+		if i := strings.Index(want, "#"); i >= 0 {
+			fmt.Sscanf(want[i+1:], "%d", &k)
+			want = want[:i]
+		}
+		n := 0
+		ast.Inspect(fd.Body, func(m ast.Node) bool {
+			sw, ok := m.(*ast.SwitchStmt)
+			if !ok {
+				return true
+			}
+			for ci, cl := range sw.Body.List {
+				cc := cl.(*ast.CaseClause)
+				for _, e := range cc.List {
+					if id, ok := e.(*ast.Ident); ok && id.Name == want {
+						n++
+						if k == 0 || n == k {
+							// the clause body, followed by the bodies it falls through to
+							var body []ast.Stmt
+							end := cc.End()
+							for j := ci; j < len(sw.Body.List); j++ {
+								b := sw.Body.List[j].(*ast.CaseClause).Body
+								end = sw.Body.List[j].End()
+								if len(b) > 0 {
+									if br, ok := b[len(b)-1].(*ast.BranchStmt); ok && br.Tok == token.FALLTHROUGH {
+										body = append(body, b[:len(b)-1]...)
+										continue
+									}
+								}
+								body = append(body, b...)
+								break
+							}
+							out = append(out, &ast.FuncLit{
+								Type: &ast.FuncType{Func: cc.Colon, Params: &ast.FieldList{}},
+								Body: &ast.BlockStmt{Lbrace: cc.Colon, List: body, Rbrace: end},
+							})
 						}
 					}
 				}
